@@ -62,7 +62,8 @@ func HarnessC06Node() {
 	verif.Assert(uuid.Equal(a.UUID(), ua), "C06/node/uuid-deterministic")
 }
 
-var floatPool = []float64{0, math.Copysign(0, -1), 1.5, -1.5, math.Inf(1), math.Inf(-1), math.NaN(), 5e-324, math.MaxFloat64}
+var floatPool = []float64{0, math.Copysign(0, -1), 1.5, -1.5, math.Inf(1), math.Inf(-1), math.NaN(), 5e-324, math.MaxFloat64,
+	0.1234561, 0.1234562, 1, math.Nextafter(1, 2), 1e15, 1e15 + 0.125} // neighbours: values that agree in their first decimals / differ in the last bit
 
 // symLiteral builds a literal of the chosen kind with symbolic content.
 // kinds: 0 bool, 1 int64, 2 float64 (concrete pool), 3 text, 4 blob.
